@@ -175,6 +175,13 @@ fn run_set<S: PS>(ctx: &Ctx) -> Acc {
                     let _ = check_case::<S>(&mut acc, &format!("d-hint-{mal:?}-honest"), &pk_b, &m, &cx, mode, &s2, true);
                 }
             }
+            if mode == Mode::Pure {
+                for (ai, y2) in gen::ascending_hint_sections(&mut g, p).into_iter().enumerate() {
+                    let mut s2 = sig.clone();
+                    s2[off..].copy_from_slice(&y2);
+                    let _ = check_case::<S>(&mut acc, &format!("d-hint-ascending-{ai}-honest"), &pk_b, &m, &cx, mode, &s2, true);
+                }
+            }
             // (f) context lengths: the same signature with longer contexts
             if ji % 4 == 0 {
                 for n in [255usize, 256, 257, 511, 512, 65_536] {
